@@ -112,7 +112,7 @@ func DefStandardClass(s *slip.Scope, name string, supers, slotSpecs, classOption
 		pkg:             slip.CurrentPackage,
 		supers:          make([]slip.Symbol, len(supers)),
 		defaultInitArgs: map[string]slip.Object{},
-		initArgs:        map[string]*SlotDef{},
+		initArgs:        map[string][]*SlotDef{},
 		initForms:       map[string]*SlotDef{},
 		methods:         map[string]*slip.Method{},
 		inheritCheck: func(c slip.Class) *StandardClass {
